@@ -1,6 +1,7 @@
 package main
 
 import (
+	"os"
 	"fmt"
 	"go/token"
 	"go/types"
@@ -1023,7 +1024,7 @@ func (fe *FuncEnc) loopInsertGuard(x *ssa.Next, mt *types.Map, m string) (string
 						continue
 					}
 					if callee := c.StaticCallee(); callee != nil {
-						if ct := fe.eng.contractFor(callee); ct != nil && (ct.Pure || (ct.HasAssigns && assignsNoMaps(ct.Assigns))) {
+						if ct := fe.eng.contractFor(callee); ct != nil && (ct.Pure || (ct.HasAssigns && fe.assignsNoMaps(ct.Assigns, mt))) {
 							continue
 						}
 						if fe.eng.isPureExternal(callee) {
@@ -1031,9 +1032,23 @@ func (fe *FuncEnc) loopInsertGuard(x *ssa.Next, mt *types.Map, m string) (string
 						}
 					} else if named, ok := c.Value.Type().(*types.Named); ok && !c.IsInvoke() && named.Obj().Pkg() != nil {
 						// value of a named function type with a contract on the type
-						if ct := fe.eng.cs.Funcs[named.Obj().Pkg().Path()+".("+named.Obj().Name()+").call"]; ct != nil && (ct.Pure || (ct.HasAssigns && assignsNoMaps(ct.Assigns))) {
+						if ct := fe.eng.cs.Funcs[named.Obj().Pkg().Path()+".("+named.Obj().Name()+").call"]; ct != nil && (ct.Pure || (ct.HasAssigns && fe.assignsNoMaps(ct.Assigns, mt))) {
 							continue
 						}
+					} else if c.IsInvoke() {
+						// interface method with a contract on the interface
+						if named, ok := c.Value.Type().(*types.Named); ok && named.Obj().Pkg() != nil {
+							key := named.Obj().Pkg().Path() + ".(" + typeLabelNoPkg(named) + ")." + c.Method.Name()
+							if ct := fe.eng.cs.Funcs[key]; ct != nil && (ct.Pure || (ct.HasAssigns && fe.assignsNoMaps(ct.Assigns, mt))) {
+								continue
+							}
+						}
+					}
+					if c.IsInvoke() && c.Method.Name() == "Error" && c.Signature().Params().Len() == 0 {
+						continue // error.Error(): assumed to write nothing (A5)
+					}
+					if os.Getenv("VERIF_DEBUG_MAPLOOP") != "" {
+						fmt.Fprintln(os.Stderr, "map loop exit fact dropped because of call:", y.String(), "in", fe.fnName())
 					}
 					return "", false // a call that may write maps
 				}
@@ -1043,12 +1058,46 @@ func (fe *FuncEnc) loopInsertGuard(x *ssa.Next, mt *types.Map, m string) (string
 	return and(guards...), true
 }
 
-// assignsNoMaps: the write frame names only ghost variables (plain identifiers):
-// no map contents, no heap fields.
-func assignsNoMaps(as []CExpr) bool {
+// assignsNoMaps: the write frame cannot change the contents of a map of type mt.
+// Only mapof(m) (a specific map, type not known here) and allmaps(T.f) of the
+// same map type can; plain identifiers (ghost variables), field and element
+// locations and allof() write no map contents.
+func (fe *FuncEnc) assignsNoMaps(as []CExpr, mt *types.Map) bool {
 	for _, a := range as {
-		if _, ok := a.(*CIdent); !ok {
+		c, ok := a.(*CCall)
+		if !ok {
+			continue
+		}
+		switch c.Fn {
+		case "mapof":
 			return false
+		case "allmaps":
+			same := true // unknown: assume the worst
+			if len(c.Args) == 1 {
+				if s, ok := c.Args[0].(*CSel); ok {
+					tn := ""
+					switch x := s.X.(type) {
+					case *CIdent:
+						tn = x.Name
+					case *CSel:
+						tn = x.Name
+					}
+					if t := fe.eng.lookupTypeAnywhere(tn); t != nil {
+						if st, ok := t.Underlying().(*types.Struct); ok {
+							for i := 0; i < st.NumFields(); i++ {
+								if st.Field(i).Name() == s.Name {
+									if ft, ok := st.Field(i).Type().Underlying().(*types.Map); ok && !types.Identical(ft, mt) {
+										same = false
+									}
+								}
+							}
+						}
+					}
+				}
+			}
+			if same {
+				return false
+			}
 		}
 	}
 	return true
